@@ -78,19 +78,44 @@ Definition opt_eqb (a b : option positive) : bool :=
 Definition tiers_eqb (a b : list (Z * list positive)) : bool :=
   list_eqb (fun x y => Z.eqb (fst x) (fst y) && plist_eqb (snd x) (snd y)) a b.
 
-(* the view agrees with the tree derived from objs on every real HyperNode *)
-Definition view_matches_spec (e : env) (objs : list hobj) (v : view) : bool :=
+(* Children: exactly the claimed members that exist as objects; a claimed member
+   without an object may or may not be listed (addChild lists it with a
+   placeholder entry, DeleteHyperNode unlists it), but every listed name is
+   claimed and has an entry *)
+Definition real_only (objs : list hobj) (l : list positive) : list positive :=
+  filter (fun c => pmem c (obj_names objs)) l.
+Definition children_ok (objs : list hobj) (v : view) (got claimed : list positive) : bool :=
+  plist_eqb (real_only objs got) (real_only objs claimed) &&
+  forallb (fun c => pmem c claimed && match aget c (s_hn v) with Some _ => true | None => false end) got.
+
+(* some HyperNode at or below k has a regex / label node member *)
+Fixpoint sel_below (fuel : nat) (objs : list hobj) (k : positive) : bool :=
+  match fuel with
+  | O => false
+  | S f => match find_obj objs k with
+           | None => false
+           | Some o => has_sel (o_members o) || existsb (sel_below f objs) (hchildren (o_members o))
+           end
+  end.
+
+(* the view agrees with the tree derived from objs on every real HyperNode;
+   [strict = false] skips the leaf sets of HyperNodes with selector members at
+   or below them (what finding D2 leaves stale) and checks everything else *)
+Definition view_matches_spec_gen (strict : bool) (e : env) (objs : list hobj) (v : view) : bool :=
   forallb (fun o =>
     match aget (o_name o) (s_hn v) with
     | None => false
     | Some i =>
         Z.eqb (i_tier i) (o_tier o) &&
         opt_eqb (i_parent i) (spec_parent objs (o_name o)) &&
-        plist_eqb (i_children i) (hchildren (o_members o)) &&
-        plist_eqb (real_get v (o_name o)) (spec_real (S (length objs)) e objs (o_name o))
+        children_ok objs v (i_children i) (hchildren (o_members o)) &&
+        (negb strict && sel_below (S (length objs)) objs (o_name o) ||
+         plist_eqb (real_get v (o_name o)) (spec_real (S (length objs)) e objs (o_name o)))
     end) objs &&
   tiers_eqb (s_tier v) (spec_tiers objs) &&
   forallb (fun kl => pmem (fst kl) (obj_names objs) || match snd kl with [] => true | _ => false end) (s_real v).
+
+Definition view_matches_spec := view_matches_spec_gen true.
 
 (* L1: the final view is the tree of the final objects *)
 Definition law_view (e : env) (objs : list hobj) (v : view) : bool :=
@@ -106,16 +131,25 @@ Definition law_ready (objs : list hobj) (v : view) : bool :=
 
 (* L2: order-independence — the incremental view equals the view of a fresh
    HyperNodesInfo fed only the final objects, on every real HyperNode *)
-Definition views_agree (objs : list hobj) (a b : view) : bool :=
+Definition views_agree_gen (strict : bool) (objs : list hobj) (a b : view) : bool :=
   forallb (fun o =>
     match aget (o_name o) (s_hn a), aget (o_name o) (s_hn b) with
     | Some i, Some j =>
         Z.eqb (i_tier i) (i_tier j) && opt_eqb (i_parent i) (i_parent j) &&
-        plist_eqb (i_children i) (i_children j) &&
-        plist_eqb (real_get a (o_name o)) (real_get b (o_name o))
+        plist_eqb (real_only objs (i_children i)) (real_only objs (i_children j)) &&
+        (negb strict && sel_below (S (length objs)) objs (o_name o) ||
+         plist_eqb (real_get a (o_name o)) (real_get b (o_name o)))
     | _, _ => false
     end) objs &&
   tiers_eqb (s_tier a) (s_tier b) && Bool.eqb (s_ready a) (s_ready b).
+
+Definition views_agree := views_agree_gen true.
+
+(* the same two laws without the leaf sets that depend on selectors *)
+Definition law_view_nosel (e : env) (objs : list hobj) (v : view) : bool :=
+  if forest_ok objs then view_matches_spec_gen false e objs v else true.
+Definition law_fresh_nosel (objs : list hobj) (incr fresh : view) : bool :=
+  if forest_ok objs then views_agree_gen false objs incr fresh else true.
 
 Definition law_fresh (objs : list hobj) (incr fresh : view) : bool :=
   if forest_ok objs then views_agree objs incr fresh else true.
